@@ -1,0 +1,6 @@
+//go:build !verif
+
+package ziptree
+
+// verifRank is the identity outside verification builds (build tag verif lets the harness choose ranks).
+func verifRank(drawn uint32) uint32 { return drawn }
